@@ -27,7 +27,8 @@ query string:
     string, '{n}' = the number of requests so far
 
 Non-termination of the code under test is an observation, never a harness hang: a run that creates more than
-MAX_REQUESTS Request objects, yields more than MAX_CHUNKS chunks or exceeds WALL_GUARD seconds is cut by a
+MAX_REQUESTS Request objects, yields more than MAX_CHUNKS chunks, burns CPU_GUARD seconds of CPU or WALL_GUARD seconds of
+wall clock is cut by a
 BaseException raised from inside (`Runaway` / `Hang`) and reported as `hang:*` with the plan.
 """
 import io
@@ -47,7 +48,10 @@ ProbeError = pc.ProbeError
 Runaway = pc.Runaway
 MAX_REQUESTS = 40
 MAX_CHUNKS = 60
-WALL_GUARD = 8.0
+# a run is cut after CPU_GUARD seconds of *CPU time of this process* (a spinning loop; immune to a loaded machine
+# descheduling the check) or after WALL_GUARD seconds of wall clock (a blocking wait)
+CPU_GUARD = 5.0
+WALL_GUARD = 60.0
 
 
 class Hang(BaseException):
@@ -360,19 +364,23 @@ def _alarm(signum, frame):
 
 
 class WallGuard(object):
-    """Wall-clock guard around calls into the code under test: after WALL_GUARD seconds (and every WALL_GUARD seconds
-    from then on) `Hang` is raised inside whatever is running.  Main thread only (elsewhere it does nothing)."""
+    """Guard around calls into the code under test: after CPU_GUARD seconds of CPU time or WALL_GUARD seconds of wall
+    clock (and again after every such interval) `Hang` is raised inside whatever is running.  Main thread only
+    (elsewhere it does nothing)."""
 
-    def __init__(self, seconds=None):
-        self.seconds = seconds or WALL_GUARD
+    def __init__(self, cpu=None, wall=None):
+        self.cpu = cpu or CPU_GUARD
+        self.wall = wall or WALL_GUARD
         self.on = False
 
     def __enter__(self):
         if hasattr(signal, 'setitimer'):
             try:
                 self.old = signal.signal(signal.SIGALRM, _alarm)
-                # (an enclosing alarm of harness/common.py uses the same timer: it is put back on exit)
-                self.prev = signal.setitimer(signal.ITIMER_REAL, self.seconds, self.seconds)
+                self.old_v = signal.signal(signal.SIGVTALRM, _alarm)
+                # (an enclosing alarm of harness/common.py uses the real-time timer: it is put back on exit)
+                self.prev = signal.setitimer(signal.ITIMER_REAL, self.wall, self.wall)
+                signal.setitimer(signal.ITIMER_VIRTUAL, self.cpu, self.cpu)
                 self.on = True
             except ValueError:        # not in the main thread
                 self.on = False
@@ -380,7 +388,9 @@ class WallGuard(object):
 
     def __exit__(self, *exc):
         if self.on:
+            signal.setitimer(signal.ITIMER_VIRTUAL, 0)
             signal.setitimer(signal.ITIMER_REAL, 0)
+            signal.signal(signal.SIGVTALRM, self.old_v)
             signal.signal(signal.SIGALRM, self.old)
             if self.prev and self.prev[0] > 0:
                 signal.setitimer(signal.ITIMER_REAL, *self.prev)
